@@ -187,8 +187,7 @@ def external_diff_render(cmd, a, b):
         status = p.returncode
         output = output.decode('utf8')
         r = re.compile(r"^\\ No newline at end of file\n?", flags=re.M)
-        output, n = r.subn("", output)
-        assert n <= 2, 'unexpected output from external diff renderer'
+        output = r.sub("", output)
     finally:
         shutil.rmtree(td)
     return output, status
